@@ -185,6 +185,7 @@ def main(argv=None):
     trusted_cs = [c for c in cs if c.trusted]
     if tier == 'thorough':
         os.environ['VERIF_Z3_TIMEOUT_MS'] = os.environ.get('VERIF_Z3_TIMEOUT_MS_THOROUGH', '40000')
+        os.environ['VERIF_CROSSCHECK'] = '1'
     results = run_proofs(proved_cs, a.jobs)
     n_cases = 300 if tier == 'quick' else 4000
     natives = run_natives(bounded_cs, n_cases, seed, a.jobs)
@@ -239,6 +240,7 @@ def main(argv=None):
     n_ob = n_ok = 0
     solver_time = 0.0
     by_backend = {}
+    cross_stats = {}
     samples = []
     fn_rows = []
     trusted_base = set()
@@ -274,6 +276,10 @@ def main(argv=None):
             errors.append(f"{r['qualname']}: guard G-0: {len(obs)} obligations < floor {floor}")
         for o in obs:
             by_backend[o['backend']] = by_backend.get(o['backend'], 0) + 1
+            if o.get('cvc5_cross'):
+                cross_stats[o['cvc5_cross']] = cross_stats.get(o['cvc5_cross'], 0) + 1
+                if o['cvc5_cross'] == 'sat':
+                    errors.append(f"{r['qualname']}: back ends disagree on {o['id']}: z3 unsat, cvc5 sat")
             if o['verdict'] == 'proved':
                 n_ok += 1
                 if len(samples) < 6 and o['kind'] in ('ensures', 'raises', 'must-raise') or \
@@ -334,6 +340,7 @@ def main(argv=None):
         trusted_base=sorted(trusted_base | {f"trusted-contract:{c.qualname}" for c in trusted_cs}),
         functions_under_contract=fn_rows,
         by_backend=by_backend, solver_time_s=round(solver_time, 2),
+        cvc5_crosscheck=cross_stats or None,
         samples=samples or [dict(note='no obligation discharged in this run')],
         abstracted_statements=abstracted,
         bounded=bounded_rows,
